@@ -162,15 +162,12 @@ def closed(mjm, kinds):
 
 
 def residual_rows(mjm, Mvals, x, b):
-  """[(i, sum_j M(i, j) x_j, b_i)] with the dense symmetric matrix of the CSR values"""
+  """[(i, [(M(i, j), x_j)], b_i)]: row i of M x = b with the dense symmetric matrix of the CSR values"""
   Dm = la.dense_of(mjm, Mvals)
   out = []
   for i in range(mjm.nv):
-    acc = 0.0
-    for j in range(mjm.nv):
-      if not (isinstance(Dm[i][j], float) and Dm[i][j] == 0.0):
-        acc = arith("+", acc, arith("*", Dm[i][j], x[j]))
-    out.append((i, acc, b[i]))
+    prods = [(Dm[i][j], x[j]) for j in range(mjm.nv) if not (isinstance(Dm[i][j], float) and Dm[i][j] == 0.0)]
+    out.append((i, prods, b[i]))
   return out
 
 
@@ -312,7 +309,7 @@ def validate_param(ctx, mjm, kinds, seed):
   return True
 
 
-def unit_solve(fam, name, scratch=False):
+def unit_solve(fam, name, scratch=False, leftinv=False):
   def run(ctx):
     from mujoco_warp._src import smooth, types
 
@@ -351,6 +348,21 @@ def unit_solve(fam, name, scratch=False):
     b = lambda w: [y.ref.cell.d0[0][w * nv + i] for i in range(nv)]
     par = [Param(mjm, kinds, w) for w in range(nworld)]
     Mvals = [p.M for p in par]
+    wv = None
+    if leftinv:
+      # left-inverse form: b := M w with w arbitrary; the claims become x(M w) = w (and M x = b).  M is invertible (L_ii > 0),
+      # so b = M w ranges over every right-hand side; M x(b) = b for all b follows by finite-dimensional linear algebra.
+      ctx.assume("block sizes 5-6: the right-hand side is b = M w with w arbitrary (left-inverse form x(M w) = w; equivalent to 'M x = b for every b' because a linear map of R^n with a left inverse is invertible)")
+      wv = [[R(f"w{w}_{i}") for i in range(nv)] for w in range(nworld)]
+      for w in range(nworld):
+        Dm = la.dense_of(mjm, Mvals[w])
+        for i in range(nv):
+          acc = 0.0
+          for j in range(nv):
+            if not (isinstance(Dm[i][j], float) and Dm[i][j] == 0.0):
+              acc = arith("+", acc, arith("*", Dm[i][j], wv[w][j]))
+          y.ref.cell.d[0][w * nv + i] = acc
+      y.ref.cell.d0 = [list(v) for v in y.ref.cell.d]
     facts = [f for p in par for f in p.facts]
     hows = ("split", "fused") + (("scratch",) if scratch else ())
     runs = {h: sym_solve(m, d, Mvals, y, h, tag=h) for h in hows}
@@ -373,8 +385,11 @@ def unit_solve(fam, name, scratch=False):
         ctx.notes.append(f"{h}: no closed form for {len(ch.failed)} intermediates {ch.failed[:6]} (left to the solver)")
       for w in range(nworld):
         xs = [flat(r["x"], w, i) for i in range(nv)]
-        for i, lhs, rhs in residual_rows(mjm, Mvals[w], xs, b(w)):
-          ch.prove(ctx, f"{h}/w{w}/Mx=b[{i}]", cmp("==", lhs, rhs), replay=rp(f"{h}.row{i}"), desc=f"{name} ({h}, {kinds[i]} block): row {i} of M x = b fails for the returned x")
+        if wv is not None:
+          for i in range(nv):
+            ch.prove(ctx, f"{h}/w{w}/x(Mw)=w[{i}]", cmp("==", xs[i], wv[w][i]), replay=rp(f"{h}.linv{i}"), desc=f"{name} ({h}, {kinds[i]} block): x[{i}] for the right-hand side M w is not w[{i}]")
+        for i, prods, rhs in residual_rows(mjm, Mvals[w], xs, b(w)):
+          ch.prove_sum(ctx, f"{h}/w{w}/Mx=b[{i}]", prods, rhs, replay=rp(f"{h}.row{i}"), desc=f"{name} ({h}, {kinds[i]} block): row {i} of M x = b fails for the returned x")
       sessM = ctx.session(facts)
       ctx.prove(sessM, f"{h}/M-untouched", And(unchanged(r["dM"]), unchanged(r["M"])), replay=rp(f"{h}.M"), desc=f"{name} ({h}): the factorisation modifies its input matrix")
     # both entry points agree (the step1 ; step2 lemma of C37): after closing, equal closed forms
@@ -490,9 +505,9 @@ def unit_mulm(name):
 
 def main(tier, seed, only=None):
   thorough = tier == "thorough"
-  chol = ["chain2", "chain3", "mixed", "slides3+chain2", "chain4"] + (["chain5", "chain6"] if thorough else [])
+  chol = ["chain2", "chain3", "mixed", "slides3+chain2", "chain4", "chain5", "chain6"]
   ldl = ["chain2", "chain3", "fork3", "ytree4", "block+ldl"] + (["fork3+slide+chain2", "chain4", "chain5", "ytree4+fork3"] if thorough else [])
-  units = [unit_solve("chol", n, scratch=(n == "chain3")) for n in chol]
+  units = [unit_solve("chol", n, scratch=(n == "chain3"), leftinv=(n in ("chain5", "chain6"))) for n in chol]
   units += [unit_solve("ldl", n, scratch=(n in ("fork3", "block+ldl"))) for n in ldl]
   units += [unit_mulm(n) for n in MULM]
   if only:
